@@ -96,8 +96,15 @@ def blank_lines(ctx, report):
                     ("pycaption/sami.py", "SAMIWriter._recreate_text")):
         f = idx.get_function(path, q)
         report.covered(f)
-        ok = any(v.startswith("<br/>") for v in _strings_used(ctx, f))
-        report.check(ok, "R-BLANKLINE", f, "a break is written as <br/> markup (no blank line semantics)", None, "3")
+        from ..core.astutil import closure
+        ok = any(v.startswith("<br/>") for g in closure(idx, f) for v in _strings_used(ctx, g))
+        if ok:
+            report.ok("R-BLANKLINE", f, "a break is written as <br/> markup (no blank line semantics)", None, "3")
+        else:
+            # (the markup may be assembled elsewhere: what a break becomes is decided by the markup writer fold, which reads the
+            # written lines back with a reference parser)
+            report.info("R-STRUCTURE", f, "the <br/> literal was not found in the routine or its private helpers (spelling not "
+                        "recognised)", {"clause_decided_by": "R-DOC-TEXT / R-DOC-GRAMMAR on the folded DFXP and SAMI documents"}, None)
 
 
 def _strings_used(ctx, f):
